@@ -164,7 +164,9 @@ class PLIST(Filetype):
     def build_tree_handling_errors(self, path: str, options: Optional[BuildOptions] = None) -> Union[str, TreeNode]:
         try:
             return self.build_tree(path=path, options=options)
-        except ExpatError as ee:
+        except (ExpatError, ValueError, IndexError, KeyError, AttributeError, TypeError, OverflowError) as ee:
+            # plistlib raises ExpatError for malformed XML, but its element handlers raise a variety of other
+            # exceptions (InvalidFileException, ValueError, IndexError, ...) for well-formed XML that is not a plist
             return f'Error parsing {os.path.basename(path)}: {ee})'
 
     def get_default_formatter(self) -> PLISTFormatter:
